@@ -218,6 +218,29 @@ func (fr *frame) lookupLocal(name string, blk *ssa.BasicBlock, st *State) (Val, 
 		}
 	}
 	// single-definition locals via debug refs
+	// a variable that was loop-carried in an earlier (already finished) loop: its value is that loop's header phi
+	if blk != nil {
+		var best *ssa.Phi
+		for _, h := range fr.loops.headers {
+			if fr.loops.body[h][blk] || !h.Dominates(blk) {
+				continue
+			}
+			for _, ins := range h.Instrs {
+				phi, ok := ins.(*ssa.Phi)
+				if !ok {
+					break
+				}
+				if phi.Comment == name {
+					if _, have := fr.vals[phi]; have && (best == nil || phi.Block().Index > best.Block().Index) {
+						best = phi
+					}
+				}
+			}
+		}
+		if best != nil {
+			return fr.vals[best], true
+		}
+	}
 	// an address-taken variable: its cell is the Alloc carrying the variable's name
 	for _, b := range fr.fn.Blocks {
 		for _, ins := range b.Instrs {
